@@ -15,7 +15,7 @@ fn check<W: Copy + Ord + Debug>(dm: &DistanceMatrix<W>, rows: &[Vec<W>], inf: W,
     let mut bad = None;
     for u in 0..n {
         for v in 0..n {
-            if dm[(u, v)] != rows[u][v] || dm[u * n + v] != rows[u][v] {
+            if crate::ctx::via_graaf(|| dm[(u, v)] != rows[u][v] || dm[u * n + v] != rows[u][v]) {
                 bad = Some((u, v));
             }
         }
@@ -23,9 +23,11 @@ fn check<W: Copy + Ord + Debug>(dm: &DistanceMatrix<W>, rows: &[Vec<W>], inf: W,
     o.check(bad.is_none(), &format!("{tag}:index"), || format!("dm[{:?}] != row/column entry", bad.unwrap()));
     // range views
     let flat: Vec<W> = rows.iter().flatten().copied().collect();
-    o.check(dm[..] == flat[..], &format!("{tag}:index(..)"), || format!("{:?}", &dm[..]));
+    let all_ok = crate::ctx::via_graaf(|| dm[..] == flat[..]);
+    o.check(all_ok, &format!("{tag}:index(..)"), || crate::ctx::via_graaf(|| format!("{:?}", &dm[..])));
     let (a, b) = (n / 2, n * n - n / 3);
-    o.check(dm[a..b] == flat[a..b], &format!("{tag}:index({a}..{b})"), || format!("{:?}", &dm[a..b]));
+    let part_ok = crate::ctx::via_graaf(|| dm[a..b] == flat[a..b]);
+    o.check(part_ok, &format!("{tag}:index({a}..{b})"), || crate::ctx::via_graaf(|| format!("{:?}", &dm[a..b])));
     let ecc: Vec<W> = rows.iter().map(|r| *r.iter().max().unwrap()).collect();
     o.eq(&format!("{tag}:eccentricities"), &dm.eccentricities().copied().collect::<Vec<_>>(), &ecc);
     let diam = *ecc.iter().max().unwrap();
@@ -79,17 +81,17 @@ pub fn case(idx: u64, seed: u64, p: &Params, o: &mut CaseOut) {
                         continue;
                     }
                     if r.chance(0.5) {
-                        dm[(u, v)] = x;
+                        crate::ctx::via_graaf(|| dm[(u, v)] = x);
                     } else {
-                        dm[u * n + v] = x;
+                        crate::ctx::via_graaf(|| dm[u * n + v] = x);
                     }
                 }
                 if by_rows {
                     // IndexMut over ranges: a whole row, or everything written so far again
-                    dm[u * n..(u + 1) * n].copy_from_slice(&rows[u]);
+                    crate::ctx::via_graaf(|| dm[u * n..(u + 1) * n].copy_from_slice(&rows[u]));
                     if u == n - 1 {
                         let flat: Vec<usize> = rows.iter().flatten().copied().collect();
-                        dm[..].copy_from_slice(&flat);
+                        crate::ctx::via_graaf(|| dm[..].copy_from_slice(&flat));
                     }
                 }
             }
@@ -127,7 +129,7 @@ pub fn case(idx: u64, seed: u64, p: &Params, o: &mut CaseOut) {
                 for v in 0..n {
                     let x = *r.pick(&vals);
                     rows[u][v] = x;
-                    dm[(u, v)] = x;
+                    crate::ctx::via_graaf(|| dm[(u, v)] = x);
                 }
             }
             for row in &rows {
